@@ -426,7 +426,7 @@ def layer_nests(ctx, n):
         root = gen_nest(rng, 0, None)
         src, table, want, alt_want = nest_case(root)
         try:
-            got = PageTemplate(src)(**table)
+            got = __import__('vlib.routes').routes.make(PageTemplate, src, 8, __import__('vlib.state').state.CTX)(**table)
         except Exception as e:
             got = 'RAISED %s: %s' % (type(e).__name__, str(e).split('\n')[0][:100])
         ctx.mon('nests-compared')
@@ -468,7 +468,7 @@ def layer_separator(ctx, n):
         sep = '\n' + ' ' * indent
         want = src.replace(rep, sep.join(one(i) for i in items))
         try:
-            got = PageTemplate(src)(xs=items)
+            got = __import__('vlib.routes').routes.make(PageTemplate, src, 8, __import__('vlib.state').state.CTX)(xs=items)
         except Exception as e:
             got = 'RAISED %s: %s' % (type(e).__name__, str(e).split('\n')[0][:100])
         ctx.mon('separators-compared')
